@@ -129,6 +129,19 @@ SHARDS.update({
     "urwid/vterm.py:TermCanvas.sgi_to_attrspec": (6, 4),
 })
 
+SHARDS.update({
+    "urwid/widget/listbox.py:ListBox.change_focus#C07-scroll": (4, 6),
+})
+
+# ListBox page up / page down: ~2600 paths each, ~45 min on one core -> thorough tier only, 16 shards
+THOROUGH_ONLY = THOROUGH_ONLY + (
+    "urwid/widget/listbox.py:ListBox._keypress_page_up",
+    "urwid/widget/listbox.py:ListBox._keypress_page_down",
+)
+SHARDS.update({
+    "urwid/widget/listbox.py:ListBox._keypress_page_up": (16, 12),
+    "urwid/widget/listbox.py:ListBox._keypress_page_down": (16, 12),
+})
 # contracts/C10_editgeo.py: the two functions that go through the whole chain translation -> cursor cell -> line position
 # TextCanvas.content (contracts/C02_content.py): one row in full generality (~190 paths, ~30 s on one core); two rows over the
 # whole width (quick); every row window x every column window x with / without a map of two / three rows: ~3 min / ~10 min on one core
